@@ -212,7 +212,7 @@ func TestCheck(t *testing.T) {
 		S, L int
 		kind string
 	}
-	shapes := []shape{{4, 7, "random"}, {4, 8, "random"}, {4, 30, "random"}, {8, 24, "random"}, {8, 29, "random"}, {12, 40, "random"}, {16, 64, "random"}, {16, 70, "random"}, {64, 96, "random"}, {8, 40, "alpha"}, {4, 24, "zerotail"}}
+	shapes := []shape{{4, 7, "random"}, {4, 8, "random"}, {4, 30, "random"}, {8, 24, "random"}, {8, 29, "random"}, {12, 40, "random"}, {16, 64, "random"}, {16, 70, "random"}, {64, 96, "random"}, {8, 40, "alpha"}, {4, 24, "zerotail"}, {8, 40, "crczero"}, {8, 37, "crczero"}, {16, 100, "crczero"}}
 	if cfg.Thorough() {
 		shapes = append(shapes, shape{4, 96, "random"}, shape{8, 200, "random"}, shape{12, 100, "random"}, shape{16, 400, "random"}, shape{64, 400, "random"}, shape{64, 333, "random"},
 			shape{16, 96, "alpha"}, shape{8, 64, "repeat"}, shape{16, 80, "slicezeros"}, shape{4, 41, "zeroshead"})
@@ -300,7 +300,7 @@ func TestCheck(t *testing.T) {
 	rapid.Check(t, func(rt *rapid.T) {
 		S := rapid.SampledFrom([]int{4, 8, 12, 16, 64, 100}).Draw(rt, "S")
 		L := rapid.IntRange(1, cfg.N(8, 12)*S).Draw(rt, "L")
-		kind := rapid.SampledFrom([]string{"random", "random", "random", "alpha", "repeat", "zerotail"}).Draw(rt, "kind")
+		kind := rapid.SampledFrom([]string{"random", "random", "random", "alpha", "repeat", "zerotail", "crczero"}).Draw(rt, "kind")
 		files := []scen.FileSpec{{Name: "a.dat", Size: L, Kind: kind, Seed: rapid.Uint64Range(0, 1<<20).Draw(rt, "seed")}}
 		if rapid.Bool().Draw(rt, "two") {
 			files = append(files, scen.FileSpec{Name: "sub/b.dat", Size: rapid.IntRange(1, 6*S).Draw(rt, "L2"), Kind: "random", Seed: rapid.Uint64Range(0, 1<<20).Draw(rt, "seed2")})
